@@ -125,6 +125,9 @@ def run(ctx):
     pw = [p for p in reps if p.endswith("PowWitness")]
     for pb in (0, 1):
         jobs.append({"part": "noncanon", "instance": inst0, "k": 1, "ks": ["1", KS[ctx.seed % 4]], "paths": pw + reps[:1], "pow_bits": pb, "shard": 900 + pb, "nshards": 0, "stride": 1})
+    # the second encoding written into the proof document itself (possible where value + p is a 64-bit word: small witnesses of the proof of work)
+    for inst in sorted(set(insts) | {"epoch4R"}):  # (epoch4R's witness is small: value + p is a 64-bit word)
+        jobs.append({"part": "noncanon", "instance": inst, "k": 1, "doc_pow": True, "ks": ["1"], "shard": 950, "nshards": 0, "stride": 1})
     # one verifier chip used for two proofs (a batching caller): the sweep of the second proof must not be weakened by the first
     for pair in (("epochCb+epoch4R", "testdata+roottest") if thorough else ("epochCb+epoch4R",)):
         jobs.append({"part": "two", "instance": pair, "k": 1, "ks": ["noncanon"], "stride": 24 if thorough else 6, "shard": 70})
